@@ -75,9 +75,26 @@ def repertoire(cs, rng, n=40):
     return out
 
 
-def sample_str(rep, rng, k=None):
+# characters whose encoding ends in (or contains) a byte with a meaning of its own on the wire: a trailing 0x00 in the
+# wide sets, a 0x5C / 0x27 / 0x00 trail byte in the double-byte sets
+TAILS = {
+    "utf16": "\u0100\u4e00\u3000\u0200", "ucs2": "\u0100\u4e00\u3000", "utf32": "\u0100\u4e00\U0001f600", "utf16le": "Az\u00e9\u007e",
+    "sjis": "\u8868\u80fd\u30bd\u5341", "cp932": "\u8868\u80fd\u30bd\u5341", "big5": "\u529f\u8a31\u84cb", "gbk": "\u4e57\u5005\u50bd", "gb18030": "\u4e57\u5005",
+}
+
+
+def sample_str(rep, rng, k=None, cs=None):
     k = k or rng.randrange(1, 9)
-    return "".join(rng.choice(rep) for _ in range(k))
+    s = "".join(rng.choice(rep) for _ in range(k))
+    tails = [ch for ch in TAILS.get(cs, "") if ch in rep or cs in TAILS]
+    if tails and rng.random() < 0.6:
+        t = rng.choice(tails)
+        try:
+            if t.encode(REF[cs]).decode(REF[cs]) == t:
+                s = s + t if rng.random() < 0.7 else s[: len(s) // 2] + t + s[len(s) // 2:]
+        except (UnicodeEncodeError, UnicodeDecodeError):
+            pass
+    return s
 
 
 class App(Session):
@@ -155,10 +172,10 @@ async def probe_all(chk, rng, cl, app, reps, desc, nullterm_ok=True):
     chk.count("probe:client=" + cc)
     chk.count("probe:results=" + rc)
     # 1. COM_QUERY text + query attributes; the application's answer: column name and cells
-    s_in = sample_str(rin, rng)
-    s_col = sample_str(rout, rng)
+    s_in = sample_str(rin, rng, cs=cc)
+    s_col = sample_str(rout, rng, cs=rc)
     ccs = rng.choice([c for c in reps])            # the column's own character set
-    s_cell = sample_str(reps[ccs], rng)
+    s_cell = sample_str(reps[ccs], rng, cs=ccs)
     app.next = ("rows", [(s_cell, None)], [ResultColumn(s_col, ColumnType.VARCHAR, character_set=CharacterSet[ccs]), ResultColumn("n", ColumnType.VARCHAR)])
     sql = "SELECT a FROM t WHERE b = '%s'" % s_in
     attrs = [(sample_str(rin, rng, 3), sample_str(rin, rng))] if a.caps & QA else []
@@ -183,7 +200,7 @@ async def probe_all(chk, rng, cl, app, reps, desc, nullterm_ok=True):
     except (Bad, IndexError, struct.error, UnicodeDecodeError, KeyError, TypeError) as e:
         chk.fail("result set undecodable by the reference client", d, repr(e))
     # 2. error message in the results character set
-    msg = sample_str(rout, rng, 6)
+    msg = sample_str(rout, rng, 6, cs=rc)
     app.next = ("raise", msg, None)
     _, out = await cl.query("SELECT a FROM t")
     try:
@@ -194,15 +211,15 @@ async def probe_all(chk, rng, cl, app, reps, desc, nullterm_ok=True):
         chk.fail("error packet undecodable by the reference client", d, repr(e))
     app.next = None
     # 3. COM_INIT_DB
-    db = sample_str(rin, rng)
+    db = sample_str(rin, rng, cs=cc)
     n0 = len(app.uses)
     out = await a.cmd(b"\x02" + cl.enc(db))
     if app.uses[n0:] != [db]:
         chk.fail("COM_INIT_DB database name did not arrive unchanged", d, dict(sent=db, got=app.uses[n0:]))
     # 4. prepared statement: text + string parameters (inline and long data)
-    s_txt = sample_str(rin, rng)
-    p1 = sample_str(rin, rng)
-    p2 = sample_str(rin, rng, 12)
+    s_txt = sample_str(rin, rng, cs=cc)
+    p1 = sample_str(rin, rng, cs=cc)
+    p2 = sample_str(rin, rng, 12, cs=cc)
     psql = "SELECT a FROM t WHERE b = '%s' AND c = ? AND d = ?" % s_txt
     out = await a.cmd(b"\x16" + cl.enc(psql))
     if out and out[0][1][:1] == b"\x00":
